@@ -12,14 +12,18 @@ M64 = (1 << 64) - 1
 OPN = ["readFF", "readFF_nb", "readFE", "readFE_nb", "writeF", "writeEF", "writeEF_nb", "fill", "empty", "incrF", "status"]
 READFF, READFF_NB, READFE, READFE_NB, WRITEF, WRITEEF, WRITEEF_NB, FILL, EMPTY, INCRF, STATUS = range(11)
 NEVER_BLOCKS = [READFF_NB, READFE_NB, WRITEF, WRITEEF_NB, FILL, EMPTY, INCRF, STATUS]
+# calls a non-qthread pthread may make in the scripts: those proxied by qthread_syncvar_blocker_func (which waits for its
+# task).  fill/empty/writeF (nonblocker proxy returns early, docs/proposed_fixes/C03-nonblocker-stack.diff) and incrF (result
+# truncated to int, C03-external-incrF-truncated.diff) are left out.
+EXTERNAL_OK = [READFF, READFF_NB, READFE, READFE_NB, WRITEEF, WRITEEF_NB, STATUS]
 VALUES = [0, 1, 2, 5, 1 << 59, (1 << 60) - 2, (1 << 60) - 1, 1 << 60, (1 << 60) + 1, 1 << 63, (1 << 64) - 1]
 CORPUS = os.path.join(core.VERIF, "corpus", "C03")
 LEVEL = "proof"
-EXPLANATION = ("17 Coq theorems (Properties_C03.v) over Syncvar/Model.v, a branch-by-branch model of src/syncvar.c on the raw 64-bit word, "
+EXPLANATION = ("19 Coq theorems (Properties_C03.v) over Syncvar/Model.v, a branch-by-branch model of src/syncvar.c on the raw 64-bit word, "
                "the hash record and the LIFO waiter lists: shape invariant for every reachable state of every script (waiter bit never lost, "
                "record present iff somebody waits, no blocked operation enabled, no fault), refinement of the abstract atomic cell "
                "(CellSpec.v) step by step, wake-up clauses (all readFF + one readFE on fill-like calls, one writeEF on empty-like calls), "
-               "nb twins, 60-bit round trip, overflow rejection, incrF sums.  Tie: M2 op-atomic replay of generated scripts in a live "
+               "nb twins, 60-bit round trip, overflow rejection, incrF sums; micro-step layer (word = CAS lock, every interleaving of loads/CAS/stores): lock_bit_mutex, incrF_atomic_micro.  Tie: M2 op-atomic replay of generated scripts in a live "
                "runtime against the extracted model with exact equality of return codes, values, released sets, raw words, status and "
                "waiter lists; an independent cell oracle turns any disagreement into a concrete, shrunk failing script.")
 
@@ -292,7 +296,10 @@ def gen_script(rng, quick=True):
             val = rng.choice([1, 1, 2, 3, M60, 1 << 60, M64])
         if op == INCRF and rng.chance(1, 5):
             val = (1 << 60) - c.val + rng.choice([-1, 0, 0, 1]) if c.val else val     # land the sum on 2^60-1, 2^60, 2^60+1
-        if use_ctl:
+        if (use_ctl or rng.chance(1, 6)) and op in EXTERNAL_OK and not sim.would_block(v, op) and rng.chance(2, 3):
+            cmds.append("X %d %d %x %d" % (v, op, val, hd))
+            t = nt
+        elif use_ctl:
             cmds.append("M %d %d %x %d" % (v, op, val, hd))
             t = nt
         else:
@@ -357,11 +364,17 @@ def run_impl(exe, scripts, cfg, stuck_after=20.0, per_script_timeout=None):
     process, the remaining scripts are run in a fresh one.  -> list of (lines, status) per script"""
     res = [None] * len(scripts)
     i = 0
+    dead = 0
     env = core.qenv(cfg[0], cfg[1], stack=65536)
     while i < len(scripts):
+        if dead >= 3:
+            # the real code hangs / dies again and again: enough evidence, do not burn the time budget
+            for k in range(i, len(scripts)):
+                res[k] = ([], "not run (3 scripts already hung or died)")
+            break
         batch = scripts[i:]
         lines = [c for s in batch for c in s] + ["Q"]
-        rc, out, err = core.run_lines(exe, lines, timeout=60 + 0.05 * len(lines) + 2 * stuck_after, env=env, args=[str(stuck_after)])
+        rc, out, err = core.run_lines(exe, lines, timeout=120 + 0.1 * len(lines) + 3 * stuck_after, env=env, args=[str(stuck_after)])
         if not out or not out[0].startswith("H "):
             raise core.BuildError("c03 harness did not start on %dx%d: rc=%s %s" % (cfg[0], cfg[1], rc, err[-400:]))
         pos = 1
@@ -382,6 +395,7 @@ def run_impl(exe, scripts, cfg, stuck_after=20.0, per_script_timeout=None):
                 st = "stuck" if cut and cut[-1].startswith("STUCK") else ("timeout" if rc == -9 else "died rc=%s" % rc)
                 res[i + k] = (cut, st)
                 i = i + k + 1
+                dead += 1
                 done_all = False
                 break
         if done_all:
@@ -417,7 +431,7 @@ def oracle_script(script, impl_lines, status):
             why = spec.check_vars(obs, "after initialisation")
         elif p[0] == "O":
             why = spec.check_step(int(p[1]), int(p[2]), int(p[3]), int(p[4], 16), int(p[5]), obs)
-        elif p[0] == "M":
+        elif p[0] in "MX":
             why = spec.check_step(spec.nt, int(p[1]), int(p[2]), int(p[3], 16), int(p[4]), obs)
         elif p[0] == "D":
             why = spec.check_drain(obs)
@@ -434,8 +448,8 @@ def describe(cmd):
     p = cmd.split()
     if p[0] == "O":
         return "task %s: %s(V%s, 0x%s%s)" % (p[1], OPN[int(p[3])], p[2], p[4], "" if p[5] == "1" else ", dest=NULL")
-    if p[0] == "M":
-        return "controller: %s(V%s, 0x%s)" % (OPN[int(p[2])], p[1], p[3])
+    if p[0] in "MX":
+        return "%s: %s(V%s, 0x%s)" % ("controller" if p[0] == "M" else "external pthread", OPN[int(p[2])], p[1], p[3])
     return cmd
 
 
@@ -461,7 +475,7 @@ def load_corpus():
 def shrink(exe, drv, cfg, script, pred):
     """delta-debug the O/M lines of a script; pred(script, impl_lines, status, model_lines) -> bool (still failing)"""
     head = [c for c in script if c[0] in "NI"]
-    ops = [c for c in script if c[0] in "OM"]
+    ops = [c for c in script if c[0] in "OMX"]
 
     def fails(sub):
         s = head + sub + ["D"]
@@ -481,25 +495,30 @@ def run(ctx):
     pr = ctx.coq_properties("Properties/Properties_C03.v")
     exe = ctx.link("c03_syncvar", ["c03_syncvar.c"], exclude=["syncvar.c"])
     drv = ctx.model_driver("c03_driver")
-    # shepherds x workers-per-shepherd.  Only one worker per shepherd: with >= 2 workers per shepherd the sherwood scheduler
-    # (main-task pinning, the per-shepherd `stealing` flag) can stall a polling controller for many seconds on a loaded
-    # machine, which is C08's subject and would make this check flaky.  Nx1 still runs controller and tasks in parallel.
-    configs = [((1, 1), 700), ((2, 1), 250), ((3, 1), 150)] if quick else [((1, 1), 12000), ((2, 1), 3000), ((3, 1), 2000), ((4, 1), 1500), ((6, 1), 500)]
+    # shepherds x workers-per-shepherd.  Multi-worker shepherds (where a removed lock would show) are included since the
+    # main-task scheduling fix /repo ed2589e; NxM with N,M >= 2 is ~20x slower per script (stealing between shepherds), so
+    # it gets fewer scripts and a long hang watchdog (machine load must not turn into a false alarm).
+    configs = ([((1, 1), 700), ((2, 1), 250), ((3, 1), 150), ((1, 4), 200), ((2, 2), 60)] if quick else
+               [((1, 1), 12000), ((2, 1), 3000), ((3, 1), 2000), ((4, 1), 1500), ((6, 1), 500),
+                ((1, 2), 1500), ((1, 4), 1500), ((2, 2), 600), ((3, 2), 200)])
     corpus = load_corpus()
     evals = steps = 0
     nontrivial = set()
     mismatches = []          # (cfg, name, script, k, impl, model)
     oracle_fail = []         # (cfg, name, script, impl_lines, (k, reason))
     ophist = {n: 0 for n in OPN}
-    outcome = {"returned": 0, "blocked": 0, "released_by_others": 0, "OPFAIL": 0, "OVERFLOW": 0, "busy": 0}
+    outcome = {"returned": 0, "blocked": 0, "released_by_others": 0, "OPFAIL": 0, "OVERFLOW": 0, "busy": 0, "external_calls": 0}
     samples = []
     stuck_n = 0
     for (cfg, n) in configs:
         r2 = rng.fork()
         scripts = [(nm, s) for nm, s in corpus] + [("gen", gen_script(r2, quick)) for _ in range(n)]
-        impl = run_impl(exe, [s for _, s in scripts], cfg)
+        impl = run_impl(exe, [s for _, s in scripts], cfg, stuck_after=60.0 if cfg[0] > 1 and cfg[1] > 1 else 20.0)
         model = run_model(drv, [s for _, s in scripts])
         for (nm, s), (il, stt), ml in zip(scripts, impl, model):
+            if stt.startswith("not run"):
+                stuck_n = max(stuck_n, 3)
+                continue
             evals += 1
             steps += len(s)
             k = core.first_diff(il, ml)
@@ -514,8 +533,10 @@ def run(ctx):
             rel = 0
             for cmd, l in zip(s, il):
                 p = cmd.split()
-                if p[0] in "OM":
+                if p[0] in "OMX":
                     ophist[OPN[int(p[3] if p[0] == "O" else p[2])]] += 1
+                    if p[0] == "X":
+                        outcome["external_calls"] += 1
                     o = parse_line(l)
                     if o["kind"] == "BUSY":
                         outcome["busy"] += 1
@@ -553,7 +574,9 @@ def run(ctx):
     ctx.assumptions += [
         "operation-atomic granularity: each API call holds the word lock from qthread_mwaitc to its publishing store; interleavings inside a call "
         "(CAS spin, timeout, the `it got full!` re-check branches) are modelled, not exercised",
-        "external (non-qthread) callers are not exercised: qthread_syncvar_nonblocker_func returns before the forked task has finished with its stack frame (DESIGN 5.4)"]
+        "external (non-qthread pthread) callers are exercised for the calls proxied by qthread_syncvar_blocker_func (readFF/readFE/writeEF and _nb, "
+        "when enabled) and status; fill/empty/writeF/incrF from a non-qthread pthread are left out: confirmed defects "
+        "docs/proposed_fixes/C03-nonblocker-stack.diff and C03-external-incrF-truncated.diff (reproducer harness/c/c03_ext_nonblocker.c)"]
 
     ctx.notes.append("history: incrF used to return / deliver the unreduced 64-bit sum once it reached 2^60 (found by this check, "
                      "fixed in /repo 70f90aa); regression: corpus/C03/05_incrF_wrap.txt, Syncvar/Examples.v incrF_wrap_regression")
